@@ -22,21 +22,32 @@ LEVEL_TEXT = ("Machine-checked proof (Coq, closed under the global context) over
               "SSHConfig lookup: a Host block applies iff some pattern matches and no negated pattern does (glob "
               "matcher proved equivalent to its declarative meaning); for Host blocks and option-independent Match "
               "criteria every non-accumulating key has the value of the first applicable block in file order that "
-              "sets it, for arbitrary criteria the same with the options obtained so far (both passes "
-              "characterised in closed form over the config: Match host/user only see the HostName/User values of "
-              "the earlier applying blocks); IdentityFile accumulates in order without duplicates; HostName defaults to the "
-              "looked-up name; allowed %-tokens and ~ are substituted segment by segment; get_hostnames reports "
-              "exactly the Host patterns for any config, Match blocks included.  The model is tied to "
-              "paramiko/config.py by regenerated token tables and a differential run against the real parser and "
-              "lookup on generated configs every run.")
+              "sets it; for all criteria but exec (all/canonical/final/host/originalhost/user/localuser, negated or "
+              "not, comma lists of possibly negated patterns) both passes are characterised in closed form over the "
+              "config alone (Match host/user only see the HostName/User of the earlier applying blocks), for the "
+              "plain final pass and for the CanonicalizeHostname re-lookup alike (C40_relookup: first-pass options "
+              "are kept, HostName is overwritten with the canonical name, Host/originalhost match the canonical "
+              "name, Match canonical passes) together with the decision which of the two runs and under which name "
+              "(C40_canonical_plan: first-pass CanonicalizeHostname/MaxDots/CanonicalDomains, first resolving "
+              "domain, fallback); with Match exec the result is characterised through the options obtained so far "
+              "(C40_pass_first_obtained, C40_two_pass_option_states); IdentityFile accumulates in order without "
+              "duplicates; HostName defaults to the looked-up name; allowed %-tokens and ~ are substituted segment "
+              "by segment; get_hostnames reports exactly the Host patterns for any config, Match blocks included.  "
+              "The model is tied to paramiko/config.py by regenerated token tables and a differential run against "
+              "the real parser and lookup on generated configs every run.")
 LEVEL_NOTE = ("Proof on a stated fragment: the text parser (regex line split, shlex, key lower-casing) is not modelled "
               "— configs are generated in structured form, rendered to text and fed to the real parser; every run "
               "compares the parsed SSHConfig._config (block headers, Match criteria, per-block dictionaries) with "
-              "the structured form and with the model's block_config (parse round trip, testing not proof); patterns without '[' classes, ASCII; Match criteria all/canonical/final/host/"
-              "originalhost/user/localuser (no exec); no canonicalization / AddressFamily keys; fnmatch, "
-              "str.replace/split, getpass/socket/expanduser (pinned) and sha1 (toy digest installed in the harness "
-              "process) are modelled by small Gallina re-implementations validated by the differential run. "
-              "The model mirrors config.py with the three proposed repairs (fixes/C40-*.diff).")
+              "the structured form and with the model's block_config (parse round trip, testing not proof); the "
+              "implementation-level oracle is the closed form of C40_relookup / C40_canonical_plan computed by "
+              "brute force in Python for every criterion (exec included, tracking HostName/User/Port); patterns "
+              "without '[' classes, ASCII; CanonicalizeMaxDots must be ASCII digits; no AddressFamily key "
+              "(family-specific getaddrinfo is outside the model); DNS is the Section-like environment function "
+              "e_resolves (harness: stub socket.gethostbyname), Match exec runs through the environment function "
+              "e_exec (harness: stub object installed as paramiko.config.invoke — no process is started; the closed "
+              "form over the config alone excludes exec because its command sees every option obtained so far); "
+              "fnmatch, str.replace/split, int(), getpass/socket/expanduser (pinned) and sha1 (toy digest installed "
+              "in the harness process) are small Gallina re-implementations validated by the differential run.")
 TECHNIQUE = "Coq proof (induction over blocks/patterns/segments) + generated tables + vm_compute differential correspondence"
 
 GENS = ["c40"]
@@ -271,7 +282,7 @@ def gen_criteria(rng, hosts, static):
     if rng.random() < 0.2:
         pre = []
         if rng.random() < 0.4:
-            pre = [("canonical", rng.random() < 0.7, "")]
+            pre = [("canonical", rng.random() < 0.5, "")]
         return pre + [("all", False, "")]
     out = []
     kinds = ["originalhost", "localuser"] if static else ["host", "originalhost", "user", "localuser", "final", "host",
@@ -293,8 +304,8 @@ def gen_criteria(rng, hosts, static):
             pats = [p for p in pats if "%" not in p or t == "host"]
             pats = pats or ["*"]
         out.append((t, neg, ",".join(pats)))
-    if rng.random() < 0.15:
-        out.insert(0, ("canonical", True, ""))
+    if rng.random() < 0.2:
+        out.insert(0, ("canonical", rng.random() < 0.5, ""))
     return out
 
 
@@ -471,9 +482,30 @@ def clean(s):
     return "%" not in s and "~" not in s
 
 
-def crit_applies(match, host, envt, oh, ou, final, canonical=False):
-    """All criteria of a Match line hold.  `oh` / `ou`: the (raw) HostName / User values obtained from the
-    earlier applying blocks, None when not yet set."""
+class Inexact(Exception):
+    """The oracle's simultaneous token substitution is not exact for this command (a substituted text itself
+    contains % or ~): leave the case to the model correspondence."""
+
+
+EXEC_TOKENS = ["%C", "%d", "%h", "%L", "%l", "%n", "%p", "%r", "%u"]
+
+
+def exec_command(param, host, envt, oh, ou, op):
+    """`Match exec` command after token substitution against the options obtained so far."""
+    port = op if op is not None else 22
+    ruser = ou if ou is not None else envt[0]
+    lshort = envt[1].split(".")[0]
+    texts = {"%h": oh if oh is not None else host, "%p": str(port), "%r": ruser, "%u": envt[0], "%d": envt[3],
+             "%l": envt[2], "%L": lshort, "%n": host, "%C": toyhash((lshort + host + repr(port) + ruser).encode())}
+    if not all(clean(t) for t in texts.values()):
+        raise Inexact()
+    return re.sub(r"%[A-Za-z]", lambda m: texts[m.group(0)] if m.group(0) in EXEC_TOKENS else m.group(0), param)
+
+
+def crit_applies(match, host, envt, st, final, canonical=False):
+    """All criteria of a Match line hold.  `st` = (HostName, User, Port) as obtained (raw) from the earlier
+    applying blocks, None when not yet set — the only options any criterion can see."""
+    oh, ou, op = st
     for t, neg, param in match:
         if t == "all":
             return True
@@ -489,6 +521,8 @@ def crit_applies(match, host, envt, oh, ou, final, canonical=False):
             ok = patterns_apply(param.split(","), ou or envt[0])
         elif t == "localuser":
             ok = patterns_apply(param.split(","), envt[0])
+        elif t == "exec":
+            ok = exec_stub(exec_command(param, host, envt, oh, ou, op))
         else:
             raise AssertionError(t)
         if ok == neg:
@@ -507,34 +541,34 @@ def block_view(body):
     return d
 
 
-def sel(blocks, host, envt, final, oh, ou, k, canonical=False):
-    """Closed form of C40_two_pass: (found, value, block) of key k in the first block that applies and sets
-    k, applicability being decided with the HostName / User of the earlier applying blocks only."""
+def advance(st, d):
+    return tuple(st[i] if st[i] is not None or key not in d else d[key]
+                 for i, key in enumerate(("hostname", "user", "port")))
+
+
+def sel(blocks, host, envt, final, st, k, canonical=False):
+    """Closed form of C40_two_pass / C40_relookup: (found, value, block) of key k in the first block that
+    applies and sets k, applicability being decided with the HostName / User / Port of the earlier applying
+    blocks only."""
     for b in blocks:
         if patterns_apply(b["host"], host) if "host" in b else \
-                crit_applies(b["match"], host, envt, oh, ou, final, canonical):
+                crit_applies(b["match"], host, envt, st, final, canonical):
             d = block_view(b["body"])
             if k in d:
                 return True, d[k], b
-            if oh is None and "hostname" in d:
-                oh = d["hostname"]
-            if ou is None and "user" in d:
-                ou = d["user"]
+            st = advance(st, d)
     return False, None, None
 
 
-def coll(blocks, host, envt, final, oh, ou, canonical=False):
+def coll(blocks, host, envt, final, st, canonical=False):
     """IdentityFile values of the applying blocks in order (same bookkeeping as sel)."""
     out = []
     for b in blocks:
         if patterns_apply(b["host"], host) if "host" in b else \
-                crit_applies(b["match"], host, envt, oh, ou, final, canonical):
+                crit_applies(b["match"], host, envt, st, final, canonical):
             d = block_view(b["body"])
             out += d.get("identityfile", [])
-            if oh is None and "hostname" in d:
-                oh = d["hostname"]
-            if ou is None and "user" in d:
-                ou = d["user"]
+            st = advance(st, d)
     return out
 
 
@@ -543,13 +577,18 @@ def has_exec(cfg):
 
 
 def expected_lookup(cfg, host, envt):
-    """("out", {key: value | SKIP}) or ("exn", class name), or None when the config uses Match exec (whose
-    outcome depends on every option obtained so far; covered by the model correspondence only).
+    """("out", {key: value | SKIP}) or ("exn", class name), or None when a Match exec command cannot be
+    expanded exactly by the oracle (then only the model correspondence covers the case).
     The property computed by brute force over the structured config: first pass, HostName default,
     canonicalisation decision from the first pass's options, then ONE second pass — plain, or the canonical
     re-lookup under the canonical name (theorems C40_relookup / C40_canonical_plan)."""
-    if has_exec(cfg):
+    try:
+        return expected_lookup_exact(cfg, host, envt)
+    except Inexact:
         return None
+
+
+def expected_lookup_exact(cfg, host, envt):
     allblocks = [{"host": ["*"], "body": cfg["global"]}] + cfg["blocks"]
     resolvable = set(envt[4]) if len(envt) > 4 else set()
     keys = []
@@ -559,9 +598,9 @@ def expected_lookup(cfg, host, envt):
                 keys.append(k)
 
     def first1(k):
-        found, v, _ = sel(allblocks, host, envt, False, None, None, k)
+        found, v, _ = sel(allblocks, host, envt, False, (None, None, None), k)
         return v if found else None
-    f1h, h1, _ = sel(allblocks, host, envt, False, None, None, "hostname")
+    f1h, h1, _ = sel(allblocks, host, envt, False, (None, None, None), "hostname")
     u1 = first1("user")
     # which second pass
     target, canonical = host, False
@@ -579,7 +618,7 @@ def expected_lookup(cfg, host, envt):
             if first1("canonicalizefallbacklocal") not in (None, "yes"):
                 return ("exn", "CouldNotCanonicalize")
     oh2 = target if canonical else (h1 if f1h else host)
-    ou2 = u1
+    st2 = (oh2, u1, first1("port"))
     raw = {}
     skip = set()
     for k in keys + ["hostname"]:
@@ -588,15 +627,15 @@ def expected_lookup(cfg, host, envt):
         if k == "hostname":
             raw[k] = oh2
             continue
-        found, v, blk = sel(allblocks, host, envt, False, None, None, k)
+        found, v, blk = sel(allblocks, host, envt, False, (None, None, None), k)
         if not found:
-            found, v, blk = sel(allblocks, target, envt, True, oh2, ou2, k, canonical)
+            found, v, blk = sel(allblocks, target, envt, True, st2, k, canonical)
         if found:
             raw[k] = v
             if k == "proxycommand" and quirky_proxy(blk["body"]):
                 skip.add(k)
     ids = []
-    for x in coll(allblocks, host, envt, False, None, None) + coll(allblocks, target, envt, True, oh2, ou2, canonical):
+    for x in coll(allblocks, host, envt, False, (None, None, None)) + coll(allblocks, target, envt, True, st2, canonical):
         if x not in ids:
             ids.append(x)
     host = target              # tokens are expanded under the name of the second pass
@@ -672,17 +711,30 @@ def check_case(ctx, cfg, text, host, envt, sc=None, prior=()):
         got = copy.deepcopy(dict(res))
         scribble(res)
     except Exception as e:  # noqa
-        ctx.fail("lookup-raises-" + type(e).__name__, "lookup raised %s on a well-formed config" % type(e).__name__,
-                 case=case, expected="an options dict", observed=repr(e))
-        return None
+        got = e
+    exp = expected_lookup(cfg, host, envt)
+    if isinstance(got, Exception):
+        name = type(got).__name__
+        if exp is not None and exp == ("exn", name):
+            ctx.dist["outcome-" + name] = ctx.dist.get("outcome-" + name, 0) + 1
+        elif exp is None and name in ("KeyError", "CouldNotCanonicalize"):
+            pass                                  # exec config: left to the model correspondence
+        else:
+            ctx.fail("lookup-raises-" + name, "lookup raised %s where the property gives %s" % (
+                name, "an options dict" if exp is None or exp[0] == "out" else exp[1]),
+                case=case, expected=(exp[1] if exp else "an options dict"), observed=repr(got))
+        return ("exn", name)
     ids = got.get("identityfile")
     if ids is not None and len(set(ids)) != len(ids):
         ctx.fail("identityfile-duplicates", "IdentityFile values contain a duplicate", case=case,
                  expected=sorted(set(ids)), observed=ids)
     if "hostname" not in got:
         ctx.fail("hostname-default-missing", "lookup result has no hostname", case=case, expected=host, observed=got)
-    exp = expected_lookup(cfg, host, envt)
-    if exp is not None:
+    if exp is not None and exp[0] == "exn":
+        ctx.fail("lookup-should-raise-" + exp[1], "lookup returns a result where canonicalisation must raise %s"
+                 % exp[1], case=case, expected=exp[1], observed=got)
+    elif exp is not None:
+        exp = exp[1]
         if set(exp) != set(got):
             ctx.fail("first-obtained-keys", "set of options differs from the first-applicable-block computation",
                      case=case, expected=sorted(exp), observed=sorted(got))
@@ -693,7 +745,7 @@ def check_case(ctx, cfg, text, host, envt, sc=None, prior=()):
                 if k == "identityfile":
                     key, what = "identityfile-accumulation", "IdentityFile is not the in-order duplicate-free accumulation over the applicable blocks"
                 elif k == "hostname":
-                    key, what = "hostname-value", "HostName is not the first obtained value / the looked-up name"
+                    key, what = "hostname-value", "HostName is not the first obtained value / the looked-up or canonical name"
                 elif k in DOC_TOKENS and isinstance(exp[k], str) and isinstance(got[k], str) and \
                         re.search(r"%[A-Za-z]|~", got[k]) and not re.search(r"%[A-Za-z]|~", exp[k]):
                     key, what = "token-not-expanded", "a documented %%-token of %s is left unexpanded" % k
@@ -701,7 +753,7 @@ def check_case(ctx, cfg, text, host, envt, sc=None, prior=()):
                     key, what = "first-obtained-value", "option %s is not the value of the first applicable block that sets it" % k
                 ctx.fail(key, what, case=dict(case, key=k), expected=exp[k], observed=got[k])
                 break
-    return got
+    return ("out", got)
 
 
 def expected_parse(cfg):
@@ -762,6 +814,29 @@ def check_parse(ctx, cfg, text):
     return got
 
 
+def record_distribution(ctx, cfg):
+    """Histogram of the Match criteria combinations and canonicalisation options that were generated."""
+    def bump(k):
+        ctx.dist[k] = ctx.dist.get(k, 0) + 1
+    for b in cfg["blocks"]:
+        if "match" not in b:
+            if any(p.startswith("!") for p in b["host"]):
+                bump("host-block-with-negated-pattern")
+            continue
+        types = sorted({t for t, _, _ in b["match"]})
+        bump("match-combo:" + "+".join(types))
+        for t, neg, param in b["match"]:
+            bump("crit-" + ("!" if neg else "") + t)
+            if "," in param and t != "exec":
+                bump("crit-comma-list")
+                if any(x.startswith("!") for x in param.split(",")):
+                    bump("crit-comma-list-with-negated-pattern")
+    keys = {k for k, _ in cfg["global"]} | {k for b in cfg["blocks"] for k, _ in b["body"]}
+    for k in ("canonicalizehostname", "canonicaldomains", "canonicalizemaxdots", "canonicalizefallbacklocal"):
+        if k in keys:
+            bump("config-with-" + k)
+
+
 def check_hostnames(ctx, cfg, text):
     case = {"text": text, "config": cfg}
     want = all_host_patterns(cfg)
@@ -783,6 +858,31 @@ def check_hostnames(ctx, cfg, text):
 
 # directed cases (run first on every seed): the three repaired defects and parser quirks
 DIRECTED = [
+    # canonical re-lookup: HostName of the first pass is overwritten, Host / originalhost see the canonical
+    # name, Match canonical passes, first-pass options are kept
+    ({"global": [("canonicalizehostname", "yes"), ("canonicaldomains", "x.y  lan")],
+      "resolvable": ["a.lan", "web.x.y", "web.lan"],
+      "blocks": [{"host": ["a"], "body": [("hostname", "b"), ("user", "u1")]},
+                 {"match": [("canonical", False, ""), ("host", False, "a.lan")], "body": [("user", "c"), ("port", "7")]},
+                 {"match": [("canonical", True, ""), ("all", False, "")], "body": [("compression", "yes")]},
+                 {"host": ["*.lan", "!web.*"], "body": [("identityfile", "/k/%h_%n")]},
+                 {"match": [("originalhost", False, "*.x.y,!a*")], "body": [("proxyjump", "%h")]}]},
+     ["a", "web", "a.b.c", "zz"]),
+    # canonicalisation failures: no CanonicalDomains (KeyError), fallback disabled (CouldNotCanonicalize),
+    # too many dots (plain), option only obtained in the final pass (no effect)
+    ({"global": [], "resolvable": [],
+      "blocks": [{"host": ["k*"], "body": [("canonicalizehostname", "always")]},
+                 {"host": ["n*"], "body": [("canonicalizehostname", "yes"), ("canonicaldomains", "lan"),
+                                           ("canonicalizefallbacklocal", "no"), ("canonicalizemaxdots", "0")]},
+                 {"match": [("final", False, "")], "body": [("canonicalizehostname", "yes"), ("user", "f")]}]},
+     ["k1", "n1", "n1.x", "other"]),
+    # Match exec through the stubbed invoke: tokens see the options obtained so far
+    ({"global": [], "resolvable": [],
+      "blocks": [{"host": ["web1"], "body": [("port", "2222")]},
+                 {"match": [("exec", False, "eq %h web1"), ("exec", True, "eq %p 22")], "body": [("user", "e1")]},
+                 {"match": [("exec", False, "no")], "body": [("user", "never")]},
+                 {"match": [("exec", True, "eq %r e1"), ("final", False, "")], "body": [("compression", "yes")]}]},
+     ["web1", "web2"]),
     # Match host on a HostName set by an earlier block, with a competing later block
     ({"global": [], "blocks": [{"host": ["app*"], "body": [("hostname", "%h.prod.internal"), ("identityfile", "/keys/app")]},
                                {"match": [("host", False, "*.prod.internal")],
@@ -824,8 +924,11 @@ def run(ctx):
                 "(lowercase wildcard and negated patterns derived from the hostnames looked up, repeated keys and "
                 "lines, IdentityFile lists, %-tokens and ~ in HostName/IdentityFile/ProxyCommand/ControlPath/"
                 "ProxyJump, quoted values, 'ProxyCommand none', Match all/canonical/final/host/originalhost/user/"
-                "localuser with negation) rendered to text with random layout/case/separators/comments and parsed "
-                "by the real SSHConfig; 60% of the configs use option-independent criteria only (the oracle is exact for all of them); "
+                "localuser/exec with negation and comma lists; 30% of the configs carry CanonicalizeHostname / "
+                "CanonicalDomains / CanonicalizeMaxDots / CanonicalizeFallbackLocal with a stub resolver, Match exec "
+                "runs through a stub installed as paramiko.config.invoke; the histogram of criteria combinations "
+                "and lookup outcomes is in input_distribution) rendered to text with random layout/case/separators/comments and parsed "
+                "by the real SSHConfig; 60% of the configs use option-independent criteria only (the oracle is exact for every criterion); "
                 "every rendered config is also compared block by block with the parser's _config (parse round trip); "
                 "each config is parsed once and serves all its lookups (first name looked up again at the end, returned "
                 "lists scribbled on by the caller in between; the parsed _config must stay unchanged); "
@@ -836,10 +939,12 @@ def run(ctx):
                     "(vm_compute of the model's own definitions, no extraction)",
                     "the text parser of SSHConfig.parse/_get_hosts/_get_matches is exercised (configs are rendered "
                     "to text) but not modelled",
-                    "getpass.getuser / socket.gethostname / socket.getfqdn / HOME / paramiko.config.sha1 are "
-                    "replaced in the harness process (toy digest defined identically in Gallina)"]
-    ctx.assumptions += ["fragment: patterns without '[', ASCII text, no Match exec, no canonicalization / "
-                        "AddressFamily keys, Match keywords in lower case"]
+                    "getpass.getuser / socket.gethostname / socket.getfqdn / socket.gethostbyname / HOME / "
+                    "paramiko.config.sha1 / paramiko.config.invoke are replaced in the harness process (toy digest and "
+                    "exec stub defined identically in Gallina)"]
+    ctx.assumptions += ["fragment: patterns without '[', ASCII text, no AddressFamily key, CanonicalizeMaxDots in "
+                        "ASCII digits, Match keywords in lower case; DNS and Match exec through stubbed environment "
+                        "functions"]
     ctx.prove(GENS)
     n_cfg = 2000 if ctx.thorough else 200
     cfg_cases = []          # (coq text, canon, info): one per config = get_hostnames + one lookup per host
@@ -849,11 +954,12 @@ def run(ctx):
         todo = [(cfg, hosts, True) for cfg, hosts in DIRECTED]
         for i in range(n_cfg):
             static = rng.random() < 0.6
-            cfg, hosts = gen_config(rng, static)
+            cfg, hosts = gen_config(rng, static, canon=rng.random() < 0.3)
             todo.append((cfg, hosts, False))
         for idx, (cfg, hosts, directed) in enumerate(todo):
             text = render(cfg, rng)
-            envt = ENVS[idx % len(ENVS)] if directed else rng.choice(ENVS)
+            envt = (ENVS[idx % len(ENVS)] if directed else rng.choice(ENVS)) + (tuple(cfg.get("resolvable", ())),)
+            record_distribution(ctx, cfg)
             stat = is_static(cfg)
             parsed = check_parse(ctx, cfg, text)
             ctx.count(("parse", text), nontrivial=bool(cfg["blocks"]) or bool(cfg["global"]), kind="parse-roundtrip")
@@ -885,13 +991,20 @@ def run(ctx):
             hosts = list(hosts) + ([hosts[0]] if hosts else [])     # the first name again, on the same object
             done = []
             for host in hosts:
-                got = check_case(ctx, cfg, text, host, envt, sc=sc_obj, prior=done)
+                outcome = check_case(ctx, cfg, text, host, envt, sc=sc_obj, prior=done)
+                got = outcome[1] if outcome[0] == "out" else None
                 done.append(host)
                 ctx.count(("lookup", text, host, envt), nontrivial=bool(cfg["blocks"]),
                           kind="lookup-directed" if directed else "lookup-static" if stat else "lookup-dynamic")
-                r = canon_options(got) if got is not None else [-2]
+                if outcome[0] == "out":
+                    r = canon_options(got)
+                    if got.get("hostname") not in (None, host) and host + "." in (got.get("hostname") or "") and \
+                            got["hostname"] in envt[4]:
+                        ctx.dist["outcome-canonical-name"] = ctx.dist.get("outcome-canonical-name", 0) + 1
+                else:
+                    r = {"KeyError": [7], "CouldNotCanonicalize": [1]}.get(outcome[1], [-2])
                 canon += [len(r)] + r
-                impl[host] = got
+                impl[host] = got if outcome[0] == "out" else "raises " + outcome[1]
                 if got is not None and len(ctx.samples) < 2 and len(cfg["blocks"]) >= 2 and not directed:
                     ctx.sample({"lookup": {"text": text, "host": host, "env": list(envt), "impl": got}})
             if sc_obj is not None and [dict(x) for x in sc_obj._config] != before:
@@ -901,7 +1014,8 @@ def run(ctx):
                          "parsed configuration", case={"text": text, "config": cfg, "hosts": hosts, "env": list(envt)},
                          expected=before[i], observed=after[i])
             cfg_cases.append(("((%s,%s,%s,%s), %s, %s, [%s])" % (
-                zs(envt[0]), zs(envt[1]), zs(envt[2]), zs(envt[3]), coq_body(cfg["global"]), coq_blocks(cfg),
+                zs(envt[0]), zs(envt[1]), zs(envt[2]), zs(envt[3]) + ", [" + ";".join(zs(x) for x in envt[4]) + "]",
+                coq_body(cfg["global"]), coq_blocks(cfg),
                 ";".join(zs(h) for h in hosts)), canon, {"text": text, "hosts": hosts, "env": list(envt), "impl": impl}))
         # malformed stream: the parser must refuse these with ConfigParseError (never another exception)
         from paramiko.ssh_exception import ConfigParseError
@@ -939,7 +1053,7 @@ def run(ctx):
             pm_cases.append(("([%s], %s)" % (";".join(zs(p) for p in ps), zs(h)), [1 if r2 else 0, 1 if r else 0], (ps, h)))
 
     bad = ctx.model_mismatches(
-        "run_config_z", "((Z * Z * Z * Z) * list (Z * Z) * list (zhdr * list (Z * Z)) * list Z)",
+        "run_config_z", "((Z * Z * Z * Z * list Z) * list (Z * Z) * list (zhdr * list (Z * Z)) * list Z)",
         [(c, e) for c, e, _ in cfg_cases], shard=40)
     for i in bad[:3]:
         ctx.disagree("get_hostnames / lookup differ from the model", case={k: cfg_cases[i][2][k] for k in ("text", "hosts", "env")},
